@@ -319,6 +319,10 @@ def get_harness(out):
         return None
 
 
+OUT_NAMES = [b"gen/out", b"gen/out", b"gen/dist[v1]", b"gen/out", b"g*n/o?t", b"gen/out", b"gen/sp ace", b"gen/out", b"gen/back\\slash",
+             b"gen/out", b"[x]/{a,b}"]
+
+
 def fault_field(missing, model=False, mid=False):
     """missing: list of 'T' or content bytes; mid (implementation only): the blobs stay but reading them breaks half way --
     for the model an unreadable blob is a missing blob"""
@@ -373,6 +377,14 @@ def restore_fault_cases(out, tier, rng=None, harness=None):
             for _ in range(2):
                 cases.append((tree, perturb(r, tree, r.choice(["absent", "modified", "extra", "file", "noparent"])),
                               r.sample(blobs, 2 + r.below(len(blobs) - 1)))); stats["multi_faults"] += 1
+        if n == 0:
+            # wide directories with many unreadable blobs (more failing downloads than any plausible pool, semaphore or channel
+            # capacity: 64, 128): every failing download must give its resources back
+            for nf, nmiss in ((70, 66), (160, 160), (200, 130), (300, 129)):
+                wide = [("f", b"w%03d" % k, b"content-%03d" % k, 0o644) for k in range(nf)]
+                wb = sorted(set(contents_of(wide)))
+                cases.append((wide, ("A",), r.sample(wb, nmiss))); stats["multi_faults"] += 1
+                cases.append((wide, ("A",), r.sample(wb, nmiss), True)); stats["midstream_read_faults"] = stats.get("midstream_read_faults", 0) + 1
         if n % 5 == 0:   # nothing to restore: faults must not matter
             cases.append((tree, ("D", copy.deepcopy(tree)), blobs))
     mids = [len(c) > 3 and c[3] for c in cases]
@@ -426,7 +438,9 @@ def dir_roundtrips(out, tier, r, h):
     lines, mlines, idx = [], [], []
     for i, (t, k, d) in enumerate(cases):
         for a in algos(i):
-            lines.append("dir\t%s\t%s\t%s\t-" % (a, tree_field(t), dest_field(d)))
+            # the output's own path: mostly gen/out, every third case a name that is unusual but legal (glob metacharacters,
+            # a space, a backslash): the restore must treat the path as a path, never as a pattern
+            lines.append("dir\t%s\t%s\t%s\t-\t%s" % (a, tree_field(t), dest_field(d), hx(OUT_NAMES[(i // len(STATES)) % len(OUT_NAMES)])))
             idx.append(i)
         mlines.append("dir\t%s\t%s\t-" % (tree_field(t, True), dest_field(d, True)))
     corpus = os.path.join(vlib.VERIF, "corpus", "C06", "cases.txt")
